@@ -6,6 +6,7 @@ import (
 	"os"
 	"path/filepath"
 	"sort"
+	"strconv"
 	"strings"
 	"time"
 )
@@ -223,6 +224,10 @@ func (r *Report) writeEvidence(verifDir string, viol int, count map[string]int) 
 	for _, id := range ids {
 		rinfo = append(rinfo, ruleInfo{id, r.RuleDocs[id], count[id], r.Minima[id]})
 	}
+	if r.Explanation == "" {
+		r.Explanation = "This run stopped before the property's rules were applied (see all_obligations for the reason); nothing was decided."
+		r.NotDecided = "everything"
+	}
 	cov := map[string]any{
 		"explanation":         r.Explanation + " NOT DECIDED by this check: " + r.NotDecided,
 		"obligations":         len(r.Obs),
@@ -245,10 +250,25 @@ func (r *Report) writeEvidence(verifDir string, viol int, count map[string]int) 
 	if len(r.Notes) > 0 {
 		cov["notes"] = r.Notes
 	}
+	// The analysis is deterministic; VERIF_SEED is recorded, it selects nothing.
+	seed, _ := strconv.Atoi(os.Getenv("VERIF_SEED"))
+	if r.Assumptions == nil {
+		// the run stopped before the property's rules were reached (load failure, checker panic)
+		r.Assumptions = []string{"AS6: go/types, go/ssa and the rule tables are correct"}
+	}
+	if samples == nil {
+		samples = []any{}
+	}
+	if rinfo == nil {
+		rinfo = []ruleInfo{}
+	}
+	if r.Obs == nil {
+		r.Obs = []*Obligation{}
+	}
 	ev := map[string]any{
 		"property_id": r.Prop,
 		"tier":        r.Tier,
-		"seed":        0,
+		"seed":        seed,
 		"level":       "other",
 		"coverage":    cov,
 		"assumptions": r.Assumptions,
